@@ -1,0 +1,54 @@
+//go:build verif
+
+package meta
+
+import (
+	"io"
+
+	"github.com/hashicorp/raft"
+	"go.uber.org/zap"
+)
+
+// This file is compiled only with the "verif" build tag. It exposes thin
+// wrappers over the unexported raft state machine of the meta store so that a
+// simulator living in another module can drive it. The wrappers contain no
+// logic of their own.
+
+// VerifFSM wraps a store whose raft layer is absent: commands are handed to
+// the state machine directly.
+type VerifFSM struct{ s *store }
+
+// VerifNewFSM builds a store the way newStore does, without opening raft.
+func VerifNewFSM(c *Config) *VerifFSM {
+	s := newStore(c, "", "")
+	s.logger = zap.NewNop()
+	return &VerifFSM{s: s}
+}
+
+// Apply calls (*storeFSM).Apply.
+func (f *VerifFSM) Apply(l *raft.Log) interface{} { return (*storeFSM)(f.s).Apply(l) }
+
+// Snapshot calls (*storeFSM).Snapshot.
+func (f *VerifFSM) Snapshot() (raft.FSMSnapshot, error) { return (*storeFSM)(f.s).Snapshot() }
+
+// Restore calls (*storeFSM).Restore.
+func (f *VerifFSM) Restore(r io.ReadCloser) error { return (*storeFSM)(f.s).Restore(r) }
+
+// Data returns the store's current metadata (not a copy).
+func (f *VerifFSM) Data() *Data {
+	f.s.mu.RLock()
+	defer f.s.mu.RUnlock()
+	return f.s.data
+}
+
+// VerifValidateCommand calls validateCommand (the check the execute endpoint
+// applies before proposing a request body to raft).
+func VerifValidateCommand(b []byte) error { return validateCommand(b) }
+
+// VerifSetBcryptCost sets the package's bcrypt cost (as the package's own
+// tests do) and returns the previous value.
+func VerifSetBcryptCost(c int) int {
+	old := bcryptCost
+	bcryptCost = c
+	return old
+}
